@@ -290,8 +290,16 @@ def cum_event(fc, conc: Conc, m_arg: float | None, tau_arg: float | None, rng: n
         kw["tau"] = tau_arg
     ev = {"ev": "Cum", "M": "arg" if m_arg is not None else "none", "tau": "arg" if tau_arg is not None else "none",
           "agree_e15": 0, "lin_e15": 0, "resc_e15": 0}
+    # the documented parameter order is (time_on_production, M, tau): half of the calls pass what they pass by position
+    positional = bool(rng.random() < 0.5) and (m_arg is not None or tau_arg is None)
+
+    def call(tt, kws):
+        if positional and "M" in kws:
+            return fc.forecast_cum(tt, kws["M"], kws["tau"]) if "tau" in kws else fc.forecast_cum(tt, kws["M"])
+        return fc.forecast_cum(tt, **kws)
+
     try:
-        out = np.asarray(fc.forecast_cum(t, **kw), dtype=float)
+        out = np.asarray(call(t, kw), dtype=float)
         ev["outcome"] = "ok"
     except Exception as ex:  # noqa: BLE001
         ev["outcome"] = type(ex).__name__
@@ -303,20 +311,20 @@ def cum_event(fc, conc: Conc, m_arg: float | None, tau_arg: float | None, rng: n
     # tau: the forecast is M * rf(t / tau) of the contents it is given, whatever an earlier call saw
     buf = np.array(t, dtype=float)
     try:
-        fc.forecast_cum(buf, **kw)
+        call(buf, kw)
         buf *= 0.5
-        again = np.asarray(fc.forecast_cum(buf, **kw), dtype=float)
+        again = np.asarray(call(buf, kw), dtype=float)
         ev["agree_e15"] = max(ev["agree_e15"], arr_e15(again, mu * np.asarray(rf(buf / tu), dtype=float)))
     except Exception:  # noqa: BLE001
         ev["agree_e15"] = CAP
     a = float(10 ** rng.uniform(-3, 3))
     k = float(10 ** rng.uniform(-3, 3))
     try:
-        ev["lin_e15"] = arr_e15(fc.forecast_cum(t, M=a * mu, tau=tu), a * out)
-        ev["resc_e15"] = arr_e15(fc.forecast_cum(k * t, M=mu, tau=k * tu), out)
+        ev["lin_e15"] = arr_e15(call(t, {"M": a * mu, "tau": tu}), a * out)
+        ev["resc_e15"] = arr_e15(call(k * t, {"M": mu, "tau": k * tu}), out)
     except Exception:  # noqa: BLE001
         ev["lin_e15"] = ev["resc_e15"] = CAP
-    ev["raw"] = {"M_used": mu, "tau_used": tu, "a": a, "k": k}
+    ev["raw"] = {"M_used": mu, "tau_used": tu, "a": a, "k": k, "called_positionally": positional}
     return ev
 
 
